@@ -131,7 +131,7 @@ def main(chk):
         steps_total += steps
         runs.append(dict(kind=kind, methods=ms, hows=hows, first_compile_dialects=fd, max_nodes=maxn, distinct=r.distinct,
                          generated=r.generated, edges=len(g.edges), plan=plan, wall_s=round(r.wall, 1)))
-        w = max(walks, key=len)
+        w = max(walks, key=lambda w_: len({(g.edges[ei][1]["a"], g.edges[ei][1]["x"]) for ei in w_}) + len(w_) / 100.0)
         samples.append(dict(kind=kind, walk=["%s(%d,%s)" % (g.edges[ei][1]["a"], g.edges[ei][1]["n"], g.edges[ei][1]["x"]) for ei in w]))
     for kind in ("select", "orm", "query", "insert", "update", "delete"):
         for need in ("Derive", "Copy", "Compile"):      # (every kind has at least one run with a copy operation)
